@@ -31,6 +31,30 @@ DOC_BUILTINS = {"String", "&str", "str", "i8", "i16", "i32", "i64", "i128", "isi
                 "char", "HashMap", "BTreeMap", "HashSet", "BTreeSet", "Vec", "Option", "Result", "Box", "Rc", "Arc"}
 
 
+def find_harvester(S):
+    """the recursive harvester of type names: CommandAnalyzer::extract_type_names_recursive, or — after it was moved / renamed — the self-recursive
+    function that the (public, pinned) entry CommandAnalyzer::extract_type_names hands its argument to"""
+    fn = S.fn("CommandAnalyzer", "extract_type_names_recursive")
+    if fn is not None:
+        return fn
+    entry = S.fn("CommandAnalyzer", "extract_type_names")
+    if entry is None:
+        return None
+    called = set()
+    for e in walk_block(entry.body):
+        if e.get("k") == "mcall":
+            called.add(e["method"])
+        elif e.get("k") == "call" and e["func"].get("k") == "path":
+            called.add(e["func"]["segs"][-1])
+    for g in S.fns:
+        if g.body is not None and g.name in called and g is not entry and any("HashSet" in (p_.get("ty") or "") for p_ in g.sig.get("params", [])):
+            selfrec = any((e.get("k") == "mcall" and e["method"] == g.name) or (e.get("k") == "call" and e["func"].get("k") == "path" and e["func"]["segs"][-1] == g.name)
+                          for e in walk_block(g.body))
+            if selfrec:
+                return g
+    return None
+
+
 def model_fields_in_slice(P, f, op, depth=10):
     """model fields (`CommandInfo.return_type`, ..) read anywhere in the backward slice of a value, including inside the closures handed to the
     iterator adapters on the way (`cmd.parameters.iter().map(|p| p.rust_type.as_str()).chain(once(cmd.return_type.as_str()))`): the fields a
@@ -346,7 +370,7 @@ def check_harvester_normalisation(S, rule):
     """sibling agreement: every sanitiser parse_type_structure applies to its input (it re-enters itself for every nested type, so the sanitiser
     runs at every level) is also applied inside the *recursive* harvester, not only in its non-recursive wrapper; shared by C07-D4 and C09-D4"""
     pts = S.fn("TypeResolver", "parse_type_structure")
-    rec = S.fn("CommandAnalyzer", "extract_type_names_recursive")
+    rec = find_harvester(S)
     if pts is None or rec is None:
         rule.bad(V(rule.id, "<anchor>", "missing:parser-or-harvester", "anchor not found"))
         return
@@ -361,7 +385,8 @@ def check_harvester_normalisation(S, rule):
         return out
     want = sanitiser_calls(pts)
     have = sanitiser_calls(rec)
-    selfrec = any(e.get("k") == "mcall" and e["method"] == rec.name for e in walk_block(rec.body))
+    selfrec = any((e.get("k") == "mcall" and e["method"] == rec.name) or (e.get("k") == "call" and e["func"].get("k") == "path" and e["func"]["segs"][-1] == rec.name)
+                  for e in walk_block(rec.body))
     if not selfrec:
         rule.bad(V(rule.id, "CommandAnalyzer::extract_type_names_recursive", "not-recursive", "the harvester does not recurse into nested types any more: re-anchor"))
     for w in sorted(want):
@@ -385,7 +410,9 @@ def check_type_text_splitting(P, rule):
         if "{promoted#" in fid:
             continue
         in_resolver = fid.startswith("tauri_typegen::analysis::type_resolver::")
-        in_harvester = bool(re.match(r"tauri_typegen::analysis::CommandAnalyzer::extract_type_names", fid))
+        in_harvester = bool(re.match(r"tauri_typegen::analysis::CommandAnalyzer::extract_type_names", fid)) or (
+            "::{closure" not in fid and fid.startswith("tauri_typegen::analysis::") and any(c_.best == fid for c_ in P.fns[fid].calls)
+            and any(short_path(c_.best).endswith("split_top_level_commas") for c_ in P.fns[fid].calls) and "HashSet<std::string::String>" in " ".join(P.fns[fid].locals[1:P.fns[fid].arg_count + 1]))
         if not (in_resolver or in_harvester):
             continue
         f = P.fns[fid]
@@ -701,7 +728,7 @@ def check(ctx):
     r4 = Rule("C07-D4-harvest-splitting", "D4",
               "extract_type_names_recursive splits Result/map/tuple argument lists with the depth-aware splitter only",
               "a naive comma split loses the types behind the first nested comma")
-    fn = S.fn("CommandAnalyzer", "extract_type_names_recursive")
+    fn = find_harvester(S)
     if fn is None:
         r4.bad(V(r4.id, "<anchor>", "missing:extract_type_names_recursive", "anchor not found"))
     else:
